@@ -1,7 +1,7 @@
 """C15"""
 PROPERTY = "C15"
 LEVEL = "proof"
-FUNCTIONS = []
+FUNCTIONS = ['uxarray.grid.geometry._pad_closed_face_nodes']
 STANDINS = ["geometry_export"]
 ASSUMPTIONS = []
 EXPLANATION = ""
